@@ -311,3 +311,114 @@ Fixpoint build_env (env : nat -> state -> state) (cf : config) (s : shard) (q : 
   | QNot a => let '(ta, st1, k1) := build_env env cf s a st k in (MNot ta, st1, k1)
   | atom => let '(t, st1) := build true cf s atom (env k st) in (t, st1, S k)
   end.
+
+(** ---- what a cached node SHARES between searches: predicate objects, possibly with mutable memo state ---- *)
+(** The node handed out for a Meta atom = a private cursor (the heap above) + the predicate closure, which the
+    cache shares between ALL searches of the shard.  The closure captures immutable shard data ([repo_of] =
+    d.repos, [want] = the verdict of the regexp on a repository's metadata; /repo precomputes the table
+    reposWant before the closure is published) and — in a variant that computes the verdict lazily, once per
+    run of documents of one repository — a MUTABLE memo cell (lastRepo, lastWant).  Memo cells live in a heap of
+    their own; [cell = None] is the immutable closure of /repo.  One evaluation of the closure is a small
+    program; its steps (one access to the shared cell each; sequentially consistent, which is already more than
+    Go guarantees for racy accesses) interleave with the steps of the other searches:
+
+      r := repos[d]
+      EStart: if lastRepo == r goto ERet else (lastRepo, lastWant) = (r, false)
+      EWrote: lastWant = want(r)
+      ERet:   return lastWant                                                                         *)
+Record pshard := { p_ndocs : nat; repo_of : nat -> nat; want : nat -> bool }.
+Definition memo := (option nat * bool)%type.          (* lastRepo (None = -1), lastWant *)
+Definition mheap := list memo.
+Definition get_memo (mh : mheap) (a : nat) : memo := nth a mh (None, false).
+Fixpoint set_memo (mh : mheap) (a : nat) (m : memo) : mheap :=
+  match mh, a with
+  | [], _ => []
+  | _ :: r, O => m :: r
+  | x :: r, S a' => x :: set_memo r a' m
+  end.
+Definition is_repo (lr : option nat) (r : nat) : bool := match lr with Some x => Nat.eqb x r | None => false end.
+
+Inductive epc := EStart | EWrote | ERet.
+
+(** one atomic step of evaluating the closure on document [d]: the next program point, or the returned value *)
+Definition eval_step (ps : pshard) (cell : option nat) (d : nat) (pc : epc) (mh : mheap) : (epc + bool) * mheap :=
+  let r := repo_of ps d in
+  match cell with
+  | None => (inr (want ps r), mh)                       (* reposWant[repos[d]]: reads immutable data only *)
+  | Some a =>
+      let '(lr, lw) := get_memo mh a in
+      match pc with
+      | EStart => if is_repo lr r then (inl ERet, mh) else (inl EWrote, set_memo mh a (Some r, false))
+      | EWrote => (inl ERet, set_memo mh a (lr, want ps r))
+      | ERet => (inr lw, mh)
+      end
+  end.
+
+(** a search for the single atom: docMatchTree.nextDoc scans the predicate from the cursor on; the candidate is
+    confirmed by docMatchTree.matches (second evaluation on the same document) and then collected *)
+Record mthread := { mt_cell : option nat; mt_doc : nat; mt_confirm : bool; mt_pc : epc; mt_acc : list nat }.
+
+Definition mt_step (ps : pshard) (th : mthread) (mh : mheap) : mthread * mheap :=
+  if Nat.leb (p_ndocs ps) (mt_doc th) then (th, mh)
+  else
+    match eval_step ps (mt_cell th) (mt_doc th) (mt_pc th) mh with
+    | (inl pc', mh') =>
+        ({| mt_cell := mt_cell th; mt_doc := mt_doc th; mt_confirm := mt_confirm th; mt_pc := pc'; mt_acc := mt_acc th |}, mh')
+    | (inr v, mh') =>
+        if mt_confirm th
+        then ({| mt_cell := mt_cell th; mt_doc := S (mt_doc th); mt_confirm := false; mt_pc := EStart;
+                 mt_acc := if v then mt_acc th ++ [mt_doc th] else mt_acc th |}, mh')
+        else if v
+        then ({| mt_cell := mt_cell th; mt_doc := mt_doc th; mt_confirm := true; mt_pc := EStart; mt_acc := mt_acc th |}, mh')
+        else ({| mt_cell := mt_cell th; mt_doc := S (mt_doc th); mt_confirm := false; mt_pc := EStart; mt_acc := mt_acc th |}, mh')
+    end.
+
+Definition mk_mthread (cell : option nat) : mthread :=
+  {| mt_cell := cell; mt_doc := 0; mt_confirm := false; mt_pc := EStart; mt_acc := [] |}.
+
+Fixpoint mt_run (fuel : nat) (ps : pshard) (th : mthread) (mh : mheap) : mthread * mheap :=
+  match fuel with
+  | O => (th, mh)
+  | S f => let '(th', mh') := mt_step ps th mh in mt_run f ps th' mh'
+  end.
+
+(** one search while ANY other activity [env] acts on the memo heap before each of its steps *)
+Fixpoint mt_run_env (env : nat -> mheap -> mheap) (fuel : nat) (ps : pshard) (th : mthread) (mh : mheap) : mthread * mheap :=
+  match fuel with
+  | O => (th, mh)
+  | S f => let '(th', mh') := mt_step ps th (env f mh) in mt_run_env env f ps th' mh'
+  end.
+
+Fixpoint mpar_run (ps : pshard) (sched : list bool) (a b : mthread) (mh : mheap) : mthread * mthread * mheap :=
+  match sched with
+  | [] => (a, b, mh)
+  | true :: r => let '(a', mh') := mt_step ps a mh in mpar_run ps r a' b mh'
+  | false :: r => let '(b', mh') := mt_step ps b mh in mpar_run ps r a b' mh'
+  end.
+
+(** the sharing discipline of the cache: what the nodes handed out to two searches of the same atom share *)
+Inductive sharing :=
+| ShareImmutable        (* /repo: the closure reads a table computed before it was published; no memo *)
+| SharePrivateMemo      (* every node handed out gets a memo cell of its own *)
+| ShareMutableMemo.     (* the closure with its memo cell is what the cache hands to every search *)
+
+Definition hand_out (sh : sharing) : option nat * option nat * mheap :=
+  match sh with
+  | ShareImmutable => (None, None, [])
+  | SharePrivateMemo => (Some 0, Some 1, [(None, false); (None, false)])
+  | ShareMutableMemo => (Some 0, Some 0, [(None, false)])
+  end.
+
+Definition mfuel (ps : pshard) : nat := S (6 * p_ndocs ps).
+
+(** two concurrent searches of the same Meta atom under a schedule of their atomic steps; afterwards both run
+    to completion *)
+Definition mpar_search (sh : sharing) (ps : pshard) (sched : list bool) : list nat * list nat :=
+  let '(ca, cb, mh0) := hand_out sh in
+  let '(a, b, mh) := mpar_run ps sched (mk_mthread ca) (mk_mthread cb) mh0 in
+  let '(a', mh1) := mt_run (mfuel ps) ps a mh in
+  let '(b', _) := mt_run (mfuel ps) ps b mh1 in
+  (mt_acc a', mt_acc b').
+
+(** the documents of the atom = what a search returns alone *)
+Definition mref (ps : pshard) : list nat := filter (fun d => want ps (repo_of ps d)) (seq 0 (p_ndocs ps)).
